@@ -1,10 +1,653 @@
-//! C30 — not built yet.
+//! C30 Remote URIs map to confined, distinct local paths.
+//!
+//! Pairs of rsync / https URIs from the grammar `rpki::uri::{Rsync, Https}` accept, the second a
+//! small edit of the first, are fed to the forwarding wrappers of routinator's private path
+//! functions (trust anchor store path, stored point path with and without rpkiNotify, rsync module
+//! and object path, RRDP archive path). Oracle: every path, lexically normalised, lies below the
+//! cache directory; two URIs that are not equivalent (rpki's `PartialEq`: equal after
+//! lower-casing scheme and authority) never map to the same path. The thorough tier additionally
+//! performs real operations (engine run with such URIs as SIA of two trust anchors over the fake
+//! rsync transport, then `Engine::dump`) and walks the directories.
+
+use std::collections::BTreeMap;
+use std::net::{IpAddr, Ipv4Addr};
+use std::path::{Component, Path, PathBuf};
+use std::str::FromStr;
+
+use proptest::prelude::*;
+use rpki::repository::tal::TalUri;
+use rpki::uri;
+use serde::{Deserialize, Serialize};
 
 use crate::core::*;
+use crate::crash::list_tree;
+use crate::erpki::{config_for, empty_exceptions, own_res, read_stored_file, run_config, Cfg, WorldPaths};
+use crate::rpkigen as gen;
 
-pub const IMPLEMENTED: bool = false;
+/// Every character rpki's `check_uri_ascii` accepts, except '/'.
+const LEGAL: &str = "!$%&'()*+,-.0123456789:;=ABCDEFGHIJKLMNOPQRSTUVWXYZ_abcdefghijklmnopqrstuvwxyz~";
 
-pub fn run(_ctx: &Ctx, _rep: &mut Report, _replay: Option<&serde_json::Value>) {
-    eprintln!("C30: check not implemented");
-    std::process::exit(2);
+const SPECIAL_SEGS: &[&str] = &[
+    "a..b", "...", "..a", "a..", ".a", "a.", "....", "%2e%2e", "%2E%2E", "%2e", ".%2e", "%2e.", "%2f", "%2F..%2F", "..%2f", "..;", ";..", "..:", "%00", "a%00b", "%5c..%5c", "~", "!", "$", "&", "'", "(", ")", "*", "+", ",", ";", "=", ":", "-", "_", "a:b",
+    "rsync:", "https:", "tmp", "rsync", "rrdp", "ta", "stored", "status.bin", "CON", "x.mft", "X.MFT", "x.cer", "-rf", "--",
+];
+
+const SPECIAL_HOSTS: &[&str] = &["a..b", "...", "..a", "a..", "%2e%2e", "localhost", "LOCALHOST", "127.0.0.1", "0", "-", "xn--a", "a.b.", "a.b..", "tmp", "rsync", "rrdp", "ta", "~", "a:873", "a:", ":873", "a:b:c", "EXAMPLE.com", "example.COM."];
+/// Only `Https` accepts these (no checks on the authority at all).
+const HTTPS_ONLY_HOSTS: &[&str] = &["", "..", ".", "..:443"];
+
+#[derive(Serialize, Deserialize, Clone, Copy, Debug, PartialEq, Eq)]
+pub enum Kind {
+    Rsync,
+    Https,
+}
+
+#[derive(Serialize, Deserialize, Clone, Debug)]
+pub struct Pair {
+    pub kind: Kind,
+    pub a: String,
+    pub b: String,
+    pub edit: String,
+}
+
+fn legal_string(max: usize) -> impl Strategy<Value = String> {
+    let chars: Vec<char> = LEGAL.chars().collect();
+    prop::collection::vec(prop::sample::select(chars), 1..=max).prop_map(|v| v.into_iter().collect::<String>())
+}
+
+fn segment() -> impl Strategy<Value = String> {
+    prop_oneof![
+        3 => prop::sample::select(SPECIAL_SEGS).prop_map(|s| s.to_string()),
+        4 => legal_string(10),
+        3 => "[a-zA-Z0-9]{1,8}",
+        1 => "[a-z]{1,5}\\.(mft|cer|roa|crl)",
+    ]
+    .prop_filter("dot segment", |s| s != "." && s != "..")
+}
+
+fn host(kind: Kind) -> BoxedStrategy<String> {
+    let plain = (prop::collection::vec("[a-zA-Z0-9-]{1,8}", 1..4), prop::bool::weighted(0.15), prop::option::weighted(0.15, 0u16..=65535)).prop_map(|(labels, dot, port)| {
+        let mut h = labels.join(".");
+        if dot {
+            h.push('.');
+        }
+        if let Some(p) = port {
+            h.push_str(&format!(":{}", p));
+        }
+        h
+    });
+    let special = prop::sample::select(SPECIAL_HOSTS).prop_map(|s| s.to_string());
+    match kind {
+        Kind::Rsync => prop_oneof![6 => plain, 2 => special, 1 => legal_string(8)].prop_filter("dot host", |s| s != "." && s != "..").boxed(),
+        Kind::Https => prop_oneof![6 => plain, 2 => special, 1 => legal_string(8), 1 => prop::sample::select(HTTPS_ONLY_HOSTS).prop_map(|s| s.to_string())].boxed(),
+    }
+}
+
+fn scheme(kind: Kind) -> impl Strategy<Value = String> {
+    let base = match kind {
+        Kind::Rsync => "rsync",
+        Kind::Https => "https",
+    };
+    prop::collection::vec(prop::bool::weighted(0.1), 5).prop_map(move |up| base.chars().zip(up).map(|(c, u)| if u { c.to_ascii_uppercase() } else { c }).collect::<String>())
+}
+
+/// A syntactically valid base URI.
+fn base_uri(kind: Kind) -> impl Strategy<Value = String> {
+    let depth = prop_oneof![8 => 0usize..=5, 1 => 6usize..=40];
+    (scheme(kind), host(kind), depth.prop_flat_map(|d| prop::collection::vec(segment(), d + 1..=d + 1)), prop::bool::weighted(0.08)).prop_map(move |(scheme, host, segs, trailing)| {
+        let mut s = format!("{}://{}/{}", scheme, host, segs.join("/"));
+        if segs.len() == 1 && kind == Kind::Rsync {
+            // module only: rsync needs the slash after the module
+            s.push('/');
+            s.push_str("f");
+        }
+        if trailing {
+            s.push('/');
+        }
+        s
+    })
+}
+
+#[derive(Clone, Debug)]
+enum Edit {
+    HostCase(usize),
+    SchemeCase(usize),
+    PathCase(usize),
+    Replace(usize, char),
+    Insert(usize, char),
+    Delete(usize),
+    MoveSlash(usize),
+    DropSegment(usize),
+    DupSegment(usize),
+    HostDot,
+    HostPort,
+    Percent(usize),
+    Unpercent,
+    Identity,
+}
+
+fn edit() -> impl Strategy<Value = Edit> {
+    let chars: Vec<char> = format!("{}/", LEGAL).chars().collect();
+    let ch = prop::sample::select(chars);
+    prop_oneof![
+        3 => any::<usize>().prop_map(Edit::HostCase),
+        1 => any::<usize>().prop_map(Edit::SchemeCase),
+        3 => any::<usize>().prop_map(Edit::PathCase),
+        3 => (any::<usize>(), ch.clone()).prop_map(|(i, c)| Edit::Replace(i, c)),
+        2 => (any::<usize>(), ch).prop_map(|(i, c)| Edit::Insert(i, c)),
+        2 => any::<usize>().prop_map(Edit::Delete),
+        3 => any::<usize>().prop_map(Edit::MoveSlash),
+        1 => any::<usize>().prop_map(Edit::DropSegment),
+        1 => any::<usize>().prop_map(Edit::DupSegment),
+        1 => Just(Edit::HostDot),
+        1 => Just(Edit::HostPort),
+        2 => any::<usize>().prop_map(Edit::Percent),
+        1 => Just(Edit::Unpercent),
+        1 => Just(Edit::Identity),
+    ]
+}
+
+fn flip(c: char) -> char {
+    if c.is_ascii_uppercase() {
+        c.to_ascii_lowercase()
+    } else {
+        c.to_ascii_uppercase()
+    }
+}
+
+/// Applies an edit to a URI string; None if it does not apply.
+fn apply(uri: &str, e: &Edit) -> Option<(String, &'static str)> {
+    let scheme_end = uri.find("://")? + 3;
+    let rest = &uri[scheme_end..];
+    let host_end = scheme_end + rest.find('/').unwrap_or(rest.len());
+    let (scheme, host, path) = (&uri[..scheme_end], &uri[scheme_end..host_end], &uri[host_end..]);
+    let alpha = |s: &str| s.char_indices().filter(|(_, c)| c.is_ascii_alphabetic()).map(|(i, _)| i).collect::<Vec<_>>();
+    let set = |s: &str, i: usize, f: &dyn Fn(char) -> String| -> String { s.char_indices().map(|(j, c)| if j == i { f(c) } else { c.to_string() }).collect() };
+    match e {
+        Edit::HostCase(n) => {
+            let idx = alpha(host);
+            let i = *idx.get(n % idx.len().max(1))?;
+            Some((format!("{}{}{}", scheme, set(host, i, &|c| flip(c).to_string()), path), "host-case"))
+        }
+        Edit::SchemeCase(n) => {
+            let i = n % 5;
+            Some((format!("{}{}{}", set(scheme, i, &|c| flip(c).to_string()), host, path), "scheme-case"))
+        }
+        Edit::PathCase(n) => {
+            let idx = alpha(path);
+            let i = *idx.get(n % idx.len().max(1))?;
+            Some((format!("{}{}{}", scheme, host, set(path, i, &|c| flip(c).to_string())), "path-case"))
+        }
+        Edit::Replace(n, ch) => {
+            let tail = format!("{}{}", host, path);
+            let i = n % tail.len().max(1);
+            Some((format!("{}{}", scheme, set(&tail, i, &|_| ch.to_string())), "replace-char"))
+        }
+        Edit::Insert(n, ch) => {
+            let mut tail = format!("{}{}", host, path);
+            let i = n % (tail.len() + 1);
+            tail.insert(i, *ch);
+            Some((format!("{}{}", scheme, tail), "insert-char"))
+        }
+        Edit::Delete(n) => {
+            let mut tail = format!("{}{}", host, path);
+            if tail.is_empty() {
+                return None;
+            }
+            let i = n % tail.len();
+            tail.remove(i);
+            Some((format!("{}{}", scheme, tail), "delete-char"))
+        }
+        Edit::MoveSlash(n) => {
+            // swap a '/' with its right (or left) neighbour: the segment boundary moves by one
+            let tail: Vec<char> = format!("{}{}", host, path).chars().collect();
+            let slashes: Vec<usize> = tail.iter().enumerate().filter(|(_, c)| **c == '/').map(|(i, _)| i).collect();
+            let i = *slashes.get(n % slashes.len().max(1))?;
+            let mut t = tail.clone();
+            if n % 2 == 0 && i + 1 < t.len() {
+                t.swap(i, i + 1);
+            } else if i > 0 {
+                t.swap(i, i - 1);
+            } else {
+                return None;
+            }
+            Some((format!("{}{}", scheme, t.into_iter().collect::<String>()), "move-boundary"))
+        }
+        Edit::DropSegment(n) => {
+            let segs: Vec<&str> = path.split('/').collect();
+            if segs.len() < 3 {
+                return None;
+            }
+            let i = 1 + n % (segs.len() - 1);
+            let mut s = segs.clone();
+            s.remove(i);
+            Some((format!("{}{}{}", scheme, host, s.join("/")), "drop-segment"))
+        }
+        Edit::DupSegment(n) => {
+            let segs: Vec<&str> = path.split('/').collect();
+            if segs.len() < 2 {
+                return None;
+            }
+            let i = 1 + n % (segs.len() - 1);
+            let mut s = segs.clone();
+            s.insert(i, segs[i]);
+            Some((format!("{}{}{}", scheme, host, s.join("/")), "dup-segment"))
+        }
+        Edit::HostDot => Some((format!("{}{}.{}", scheme, host, path), "host-trailing-dot")),
+        Edit::HostPort => Some((format!("{}{}:873{}", scheme, host, path), "host-port")),
+        Edit::Percent(n) => {
+            let idx: Vec<usize> = path.char_indices().filter(|(_, c)| *c != '/').map(|(i, _)| i).collect();
+            let i = *idx.get(n % idx.len().max(1))?;
+            Some((format!("{}{}{}", scheme, host, set(path, i, &|c| format!("%{:02x}", c as u32))), "percent-encode"))
+        }
+        Edit::Unpercent => {
+            let lower = path.to_ascii_lowercase();
+            let i = lower.find("%2e")?;
+            Some((format!("{}{}{}.{}", scheme, host, &path[..i], &path[i + 3..]), "percent-decode-dot"))
+        }
+        Edit::Identity => Some((uri.to_string(), "identity")),
+    }
+}
+
+fn parses(kind: Kind, s: &str) -> bool {
+    match kind {
+        Kind::Rsync => uri::Rsync::from_str(s).is_ok(),
+        Kind::Https => uri::Https::from_str(s).is_ok(),
+    }
+}
+
+fn pair(kind: Kind) -> impl Strategy<Value = Pair> {
+    (base_uri(kind), prop::collection::vec(edit(), 4)).prop_filter_map("base URI rejected by rpki", move |(a, edits)| {
+        if !parses(kind, &a) {
+            return None;
+        }
+        for e in &edits {
+            if let Some((b, name)) = apply(&a, e) {
+                if parses(kind, &b) && (b != a || name == "identity") {
+                    return Some(Pair { kind, a, b, edit: name.to_string() });
+                }
+            }
+        }
+        Some(Pair { kind, b: a.clone(), a, edit: "identity".to_string() })
+    })
+}
+
+/// Lexical normalisation: `.` and empty components dropped, `..` resolved; a `..` that would
+/// climb above the root is kept as a marker component.
+pub fn normalise(p: &Path) -> PathBuf {
+    let mut out: Vec<std::ffi::OsString> = Vec::new();
+    let mut root = false;
+    for c in p.components() {
+        match c {
+            Component::RootDir => root = true,
+            Component::CurDir => {}
+            Component::ParentDir => {
+                if out.pop().is_none() {
+                    out.push("<above-root>".into());
+                }
+            }
+            Component::Normal(s) => out.push(s.to_os_string()),
+            Component::Prefix(_) => {}
+        }
+    }
+    let mut res = if root { PathBuf::from("/") } else { PathBuf::new() };
+    for c in out {
+        res.push(c);
+    }
+    res
+}
+
+/// The fixture all path functions are evaluated against.
+pub struct Fixture {
+    _scratch: tempfile::TempDir,
+    pub cache: PathBuf,
+    config: routinator::config::Config,
+    store: routinator::store::Store,
+    notify: uri::Https,
+    manifest: uri::Rsync,
+}
+
+impl Fixture {
+    pub fn new(ctx: &Ctx) -> Fixture {
+        let scratch = ctx.scratch();
+        let cache = scratch.path().join("cache");
+        std::fs::create_dir_all(&cache).unwrap();
+        let mut config = routinator::config::Config::default_with_paths(scratch.path().join("routinator.conf"), cache.clone());
+        config.rsync_command = "true".into();
+        config.rsync_args = Some(vec![]);
+        config.no_rir_tals = true;
+        let store = routinator::store::Store::new(&config).expect("store");
+        Fixture { _scratch: scratch, cache, config, store, notify: uri::Https::from_str("https://rrdp.example.net/notify.xml").unwrap(), manifest: uri::Rsync::from_str("rsync://rsync.example.net/repo/ca/ca.mft").unwrap() }
+    }
+}
+
+/// (role, equivalence class key of the URI for that role or None = use rpki's `==`, path)
+struct RolePath {
+    role: &'static str,
+    /// URIs whose `class` is equal may share the path of this role
+    class: String,
+    path: PathBuf,
+}
+
+fn canon_rsync(u: &uri::Rsync) -> String {
+    format!("rsync://{}/{}/{}", u.canonical_authority(), u.module_name(), u.path())
+}
+fn canon_https(u: &uri::Https) -> String {
+    format!("https://{}{}", u.canonical_authority(), u.path())
+}
+
+fn role_paths(fx: &Fixture, kind: Kind, s: &str) -> Result<Vec<RolePath>, String> {
+    let mut res = Vec::new();
+    match kind {
+        Kind::Rsync => {
+            let u = uri::Rsync::from_str(s).map_err(|e| e.to_string())?;
+            let class = canon_rsync(&u);
+            let file_like = !u.path_is_dir();
+            res.push(RolePath {
+                role: "rsync-module",
+                class: format!("rsync://{}/{}/", u.canonical_authority(), u.module_name()),
+                path: routinator::collector::verif::rsync_module_path(&fx.config, &u).ok_or("rsync_module_path unavailable")?,
+            });
+            if file_like {
+                res.push(RolePath { role: "ta-rsync", class: class.clone(), path: fx.store.verif_ta_path(&TalUri::Rsync(u.clone())) });
+                res.push(RolePath { role: "point-rsync", class: class.clone(), path: fx.store.verif_point_path(None, &u) });
+                res.push(RolePath { role: "point-rrdp", class: class.clone(), path: fx.store.verif_point_path(Some(&fx.notify), &u) });
+                res.push(RolePath { role: "rsync-object", class, path: routinator::collector::verif::rsync_uri_path(&fx.config, &u).ok_or("rsync_uri_path unavailable")? });
+            }
+        }
+        Kind::Https => {
+            let u = uri::Https::from_str(s).map_err(|e| e.to_string())?;
+            let class = canon_https(&u);
+            res.push(RolePath { role: "ta-https", class: class.clone(), path: fx.store.verif_ta_path(&TalUri::Https(u.clone())) });
+            res.push(RolePath { role: "point-of-rrdp-repository", class: class.clone(), path: fx.store.verif_point_path(Some(&u), &fx.manifest) });
+            res.push(RolePath { role: "rrdp-archive", class, path: routinator::collector::verif::rrdp_repository_path(&fx.config, &u).ok_or("rrdp_repository_path unavailable")? });
+        }
+    }
+    Ok(res)
+}
+
+fn dotlike(s: &str) -> bool {
+    let l = s.to_ascii_lowercase();
+    l.contains("..") || l.contains("%2e") || l.contains("/.") || l.contains("%2f")
+}
+
+fn prop_paths(fx: &Fixture, p: &Pair, info: &mut CaseInfo) -> Verdict {
+    let equivalent = match p.kind {
+        Kind::Rsync => match (uri::Rsync::from_str(&p.a), uri::Rsync::from_str(&p.b)) {
+            (Ok(a), Ok(b)) => {
+                // rpki's notion and the documented one must agree (guards the oracle itself)
+                let eq = a == b;
+                if eq != (canon_rsync(&a) == canon_rsync(&b)) {
+                    return Verdict::Dropped("rpki_eq_differs_from_canonical_form".into());
+                }
+                eq
+            }
+            _ => return Verdict::Dropped("unparsable".into()),
+        },
+        Kind::Https => match (uri::Https::from_str(&p.a), uri::Https::from_str(&p.b)) {
+            (Ok(a), Ok(b)) => {
+                let eq = a == b;
+                if eq != (canon_https(&a) == canon_https(&b)) {
+                    return Verdict::Dropped("rpki_eq_differs_from_canonical_form".into());
+                }
+                eq
+            }
+            _ => return Verdict::Dropped("unparsable".into()),
+        },
+    };
+    info.class(format!("edit={}", p.edit));
+    info.class(format!("kind={:?}", p.kind));
+    info.class(if equivalent { "equivalent" } else { "not_equivalent" });
+    let depth = p.a.matches('/').count().saturating_sub(3);
+    info.class(if depth > 8 { "depth>8" } else { "depth<=8" });
+    if dotlike(&p.a) || dotlike(&p.b) {
+        info.class("dot_like_segment");
+    }
+    info.nt(p.edit == "host-case" || p.edit == "path-case" || dotlike(&p.a) || dotlike(&p.b));
+    let (ra, rb) = match (role_paths(fx, p.kind, &p.a), role_paths(fx, p.kind, &p.b)) {
+        (Ok(a), Ok(b)) => (a, b),
+        (Err(e), _) | (_, Err(e)) => return Verdict::Dropped(format!("wrapper:{}", truncate(&e, 60))),
+    };
+    let cache = normalise(&fx.cache);
+    for (uri, r) in ra.iter().map(|r| (&p.a, r)).chain(rb.iter().map(|r| (&p.b, r))) {
+        let n = normalise(&r.path);
+        if !(n.starts_with(&cache) && n != cache) {
+            return Verdict::fail(format!("C30/escapes-cache/role={}", r.role), format!("URI {:?}: {} path {:?} normalises to {:?}, which is not below the cache directory {:?}", uri, r.role, r.path, n, cache));
+        }
+    }
+    // distinctness: any two paths (same or different role) of the two URIs
+    for x in &ra {
+        for y in &rb {
+            if normalise(&x.path) == normalise(&y.path) && !(x.role == y.role && x.class == y.class) {
+                let role = if x.role == y.role { format!("role={}", x.role) } else { format!("roles={}+{}", x.role, y.role) };
+                return Verdict::fail(
+                    format!("C30/shared-path/{}/edit={}", role, p.edit),
+                    format!("URIs {:?} and {:?} are not equivalent for {} (canonical forms {:?} vs {:?}) but both map to {:?} (raw {:?} / {:?})", p.a, p.b, role, x.class, y.class, normalise(&x.path), x.path, y.path),
+                );
+            }
+            if x.role == y.role && x.class == y.class {
+                info.class(if normalise(&x.path) == normalise(&y.path) { "equivalent_same_path" } else { "equivalent_different_path" });
+            }
+        }
+    }
+    Verdict::Pass
+}
+
+//------------------------------------------------------------------------------------------
+// Real operations (thorough tier): two trust anchors whose SIA directories are the two URIs.
+
+fn as_dir(u: &uri::Rsync) -> uri::Rsync {
+    let mut d = u.clone();
+    d.path_into_dir();
+    d
+}
+
+fn srv_dir(srv: &Path, u: &uri::Rsync) -> PathBuf {
+    srv.join(u.canonical_authority().as_ref()).join(u.module_name()).join(u.path())
+}
+
+/// Two trust anchors (keys 0 and 1) whose SIA directories are `dirs`; TA i publishes a manifest, a
+/// CRL and one ROA on the fake rsync server if `publish[i]` (its certificate is always published).
+/// None = the server tree cannot hold both (a file where a directory is needed).
+fn build_real(root: &Path, dirs: &[uri::Rsync; 2], publish: [bool; 2]) -> Option<(WorldPaths, Vec<bytes::Bytes>, Vec<uri::Rsync>)> {
+    let paths = WorldPaths { conf: root.join("routinator.conf"), cache: root.join("cache"), tals: root.join("tals"), srv: root.join("srv"), rsync_log: root.join("rsync.log"), rsync_bin: std::env::current_exe().expect("exe").with_file_name("rvrsync") };
+    for d in [&paths.cache, &paths.tals, &paths.srv, &root.join("dump")] {
+        std::fs::create_dir_all(d).unwrap();
+    }
+    let now = rpki::repository::x509::Time::now();
+    let mut manifests = Vec::new();
+    let mut mft_uris = Vec::new();
+    for (i, dir) in dirs.iter().enumerate() {
+        let mft_uri = dir.join(b"m.mft").unwrap();
+        let crl_uri = dir.join(b"c.crl").unwrap();
+        let roa_uri = dir.join(b"r.roa").unwrap();
+        let ta_uri = uri::Rsync::from_string(format!("{}ta{}.cer", dir.module(), i)).unwrap();
+        let res = own_res(i);
+        let ta = gen::issue_ta(i, &res, gen::validity(now, -86400, 86400 * 365), dir, &mft_uri, None, 1);
+        let issuer = gen::Issuer { key: i, cert_uri: ta_uri.clone(), crl_uri: crl_uri.clone() };
+        let roa = gen::issue_roa(&issuer, &roa_uri, 64512 + i as u32, &[(IpAddr::V4(Ipv4Addr::new(10, i as u8, 0, 0)), 24, None)], gen::validity(now, -3600, 86400), 11, None);
+        let crl = gen::issue_crl(&issuer, gen::t(now, -60), gen::t(now, 86400), &[], 1, None);
+        let entries = vec![("r.roa".to_string(), gen::sha256(&roa)), ("c.crl".to_string(), gen::sha256(&crl))];
+        let mft = gen::issue_manifest(&issuer, &mft_uri, 1, gen::t(now, -120), gen::t(now, 86400), &entries, gen::validity(now, -180, 86400), 1000, None);
+        let modroot = paths.srv.join(dir.canonical_authority().as_ref()).join(dir.module_name());
+        std::fs::create_dir_all(&modroot).ok()?;
+        std::fs::write(modroot.join(format!("ta{}.cer", i)), &ta).ok()?;
+        if publish[i] {
+            let sd = srv_dir(&paths.srv, dir);
+            std::fs::create_dir_all(&sd).ok()?;
+            for (name, data) in [("m.mft", mft.clone()), ("c.crl", crl), ("r.roa", roa)] {
+                std::fs::write(sd.join(name), &data).ok()?;
+            }
+        }
+        std::fs::write(paths.tals.join(format!("t{}.tal", i)), gen::tal_text(&[ta_uri.to_string()], i)).unwrap();
+        manifests.push(mft);
+        mft_uris.push(mft_uri);
+    }
+    Some((paths, manifests, mft_uris))
+}
+
+/// Informational probe (never a verdict of this property): trust anchor 1 merely *claims* a
+/// publication point below trust anchor 0's manifest file, resp. at trust anchor 0's directory;
+/// what happens to the run?
+fn prefix_probe(ctx: &Ctx) -> serde_json::Value {
+    let mut res = serde_json::Map::new();
+    for (name, b_dir) in [("control: unrelated directory", "rsync://h.example/m/b/"), ("claimed point below the other point's manifest file", "rsync://h.example/m/a/m.mft/")] {
+        let scratch = ctx.scratch();
+        let dirs = [uri::Rsync::from_str("rsync://h.example/m/a/").unwrap(), uri::Rsync::from_str(b_dir).unwrap()];
+        let Some((paths, _, _)) = build_real(scratch.path(), &dirs, [true, false]) else {
+            res.insert(name.into(), serde_json::json!("server tree conflict"));
+            continue;
+        };
+        let mut config = config_for(&Cfg { threads: 1, ..Default::default() }, &paths);
+        config.allow_dubious_hosts = true;
+        let mut outcomes = Vec::new();
+        for run in 0..2 {
+            outcomes.push(match run_config(&config, false, &empty_exceptions()) {
+                Ok(o) => format!("run {}: ok, {} VRPs", run + 1, o.payload.origins.len()),
+                Err(e) => format!("run {}: {}", run + 1, e),
+            });
+        }
+        res.insert(name.into(), serde_json::json!(outcomes));
+    }
+    serde_json::Value::Object(res)
+}
+
+fn prop_real(ctx: &Ctx, p: &Pair, info: &mut CaseInfo) -> Verdict {
+    let (Ok(ua), Ok(ub)) = (uri::Rsync::from_str(&p.a), uri::Rsync::from_str(&p.b)) else { return Verdict::Dropped("unparsable".into()) };
+    let dirs = [as_dir(&ua), as_dir(&ub)];
+    info.class(format!("edit={}", p.edit));
+    if dirs[0] == dirs[1] {
+        info.class("equivalent_skipped");
+        return Verdict::Pass;
+    }
+    // a component of 255+ bytes cannot be created on the fake server either
+    if p.a.split('/').chain(p.b.split('/')).any(|s| s.len() > 200) || p.a.len() > 3000 {
+        return Verdict::Dropped("name_too_long_for_fs".into());
+    }
+    let scratch = ctx.scratch();
+    let root = scratch.path();
+    let Some((paths, manifests, mft_uris)) = build_real(root, &dirs, [true, true]) else {
+        // e.g. one URI's directory is the other's file on the fake server: not this property
+        return Verdict::Dropped("server_tree_conflict".into());
+    };
+    let outside = |p: &String| !p.starts_with("cache/") && !p.starts_with("dump/") && p != "rsync.log";
+    let before: std::collections::BTreeSet<String> = list_tree(root).into_iter().filter(outside).collect();
+    let mut config = config_for(&Cfg { threads: 1, ..Default::default() }, &paths);
+    config.allow_dubious_hosts = true;
+    let out = match run_config(&config, false, &empty_exceptions()) {
+        Ok(o) => o,
+        Err(e) => return Verdict::fail(format!("C30/real/run-fails/edit={}", p.edit), format!("engine run with SIA directories {:?} and {:?} fails: {}", dirs[0].as_str(), dirs[1].as_str(), e)),
+    };
+    let accepted = out.payload.origins.len();
+    info.class(format!("accepted_vrps={}", accepted));
+    info.nt(accepted == 2);
+    let engine = match routinator::engine::Engine::new(&config, true) {
+        Ok(e) => e,
+        Err(_) => return Verdict::Dropped("engine_new".into()),
+    };
+    let dump = root.join("dump");
+    let dumped = engine.dump(&dump).is_ok();
+    let after: std::collections::BTreeSet<String> = list_tree(root).into_iter().filter(outside).collect();
+    if let Some(extra) = after.difference(&before).next() {
+        return Verdict::fail(format!("C30/real/file-outside-cache-or-dump/edit={}", p.edit), format!("SIA directories {:?} / {:?}: after run + dump the entry {:?} exists outside the cache and dump directories", dirs[0].as_str(), dirs[1].as_str(), extra));
+    }
+    if let Some(gone) = before.difference(&after).next() {
+        return Verdict::fail(format!("C30/real/file-outside-cache-removed/edit={}", p.edit), format!("SIA directories {:?} / {:?}: {:?} outside the cache was removed", dirs[0].as_str(), dirs[1].as_str(), gone));
+    }
+    if accepted < 2 {
+        // one of the points was not accepted (e.g. a name routinator refuses); sharing cannot be judged
+        return Verdict::Dropped("point_not_accepted".into());
+    }
+    let store = routinator::store::Store::new(&config).expect("store");
+    for i in 0..2 {
+        let path = store.verif_point_path(None, &mft_uris[i]);
+        match read_stored_file(&path) {
+            Ok(Some(v)) if v.manifest == manifests[i] => {}
+            other => {
+                return Verdict::fail(
+                    format!("C30/real/stored-point-not-own/edit={}", p.edit),
+                    format!("SIA directories {:?} / {:?}: stored point file {:?} of point {} does not hold its manifest: {:?}", dirs[0].as_str(), dirs[1].as_str(), path, i, other.map(|o| o.map(|v| v.objects.keys().cloned().collect::<Vec<_>>()))),
+                )
+            }
+        }
+        let copy = routinator::collector::verif::rsync_uri_path(&config, &mft_uris[i]).unwrap();
+        if std::fs::read(&copy).ok().as_deref() != Some(manifests[i].as_ref()) {
+            return Verdict::fail(format!("C30/real/rsync-copy-not-own/edit={}", p.edit), format!("rsync copy {:?} of {} does not hold that manifest", copy, mft_uris[i]));
+        }
+        if dumped {
+            let dp = dump.join("store/rsync").join(mft_uris[i].canonical_authority().as_ref()).join(mft_uris[i].module_name()).join(mft_uris[i].path());
+            if std::fs::read(&dp).ok().as_deref() != Some(manifests[i].as_ref()) {
+                return Verdict::fail(format!("C30/real/dump-not-own/edit={}", p.edit), format!("dumped file {:?} of {} does not hold that manifest", dp, mft_uris[i]));
+            }
+        }
+    }
+    if !dumped {
+        return Verdict::fail(format!("C30/real/dump-fails/edit={}", p.edit), format!("Engine::dump fails for SIA directories {:?} / {:?}", dirs[0].as_str(), dirs[1].as_str()));
+    }
+    info.class("real_both_points_stored_copied_dumped");
+    Verdict::Pass
+}
+
+pub fn run(ctx: &Ctx, rep: &mut Report, replay: Option<&serde_json::Value>) {
+    rep.rule("pairs of URIs: a base URI from rpki's accepting grammar (scheme in any case; hosts of 1-3 labels with upper case, trailing dot, port, or special names such as a..b, %2e%2e, localhost, 127.0.0.1, tmp/rsync/rrdp/ta, for https also the empty authority, '.' and '..'; module and path segments from every legal character incl. special segments a..b, ..., %2e%2e, %2f, ~ ! $ & ' ( ) * + , ; = : and names of routinator's own sub-directories; depth 0-5, 1 in 9 up to 40; file URIs never end in '/') and a small edit of it (case of one host / scheme / path letter, one character replaced / inserted / deleted, a segment boundary moved by one, segment dropped / duplicated, trailing dot or port added to the host, one character percent-encoded, %2e decoded); every URI is re-parsed by rpki; roles: trust anchor path (rsync, https), stored point path without and with rpkiNotify, stored point path of an RRDP repository keyed by the https URI, rsync module path, rsync object path, RRDP archive path; non-trivial = pair differing only in host case or only in path case, or a URI with a dot-like segment (.., %2e, %2f, /.); distinct by serialised pair");
+    rep.assume("'equivalent' is rpki's PartialEq for Rsync / Https (scheme and authority compared ignoring ASCII case, the rest exactly); the check drops a pair if that ever disagrees with the canonical form built from canonical_authority()");
+    rep.assume("the rsync module path is shared by design by all URIs of one module: for that role two URIs are equivalent iff their canonical modules are equal");
+    rep.assume("lexical normalisation only (no symlinks are created by routinator); file systems are case-sensitive");
+    let fx = Fixture::new(ctx);
+    ctx.shrink_iters.store(400, std::sync::atomic::Ordering::Relaxed);
+    if let Some(v) = replay {
+        let t: Tagged<Pair> = serde_json::from_value(v.clone()).expect("replay");
+        if t.sub.starts_with("real") {
+            run_case(ctx, rep, &t.sub, &t.case, |p, info| prop_real(ctx, p, info));
+        } else {
+            run_case(ctx, rep, &t.sub, &t.case, |p, info| prop_paths(&fx, p, info));
+        }
+        return;
+    }
+    // directed pairs (always run)
+    let directed: Vec<Pair> = [
+        (Kind::Rsync, "rsync://example.net/repo/ca/x.mft", "rsync://EXAMPLE.net/repo/ca/x.mft", "host-case"),
+        (Kind::Rsync, "rsync://example.net/repo/ca/x.mft", "rsync://example.net/repo/CA/x.mft", "path-case"),
+        (Kind::Rsync, "rsync://example.net/repo/ca/x.mft", "rsync://example.net/Repo/ca/x.mft", "path-case"),
+        (Kind::Rsync, "rsync://example.net/repo/a/bc.mft", "rsync://example.net/repo/ab/c.mft", "move-boundary"),
+        (Kind::Rsync, "rsync://example.net/re/po/x.mft", "rsync://example.net/rep/o/x.mft", "move-boundary"),
+        (Kind::Rsync, "rsync://a/b.c/d/x.mft", "rsync://a.b/c/d/x.mft", "move-boundary"),
+        (Kind::Rsync, "rsync://example.net/repo/%2e%2e/x.mft", "rsync://example.net/repo/%2E%2E/x.mft", "path-case"),
+        (Kind::Rsync, "rsync://example.net/repo/a..b/x.mft", "rsync://example.net/repo/a.b/x.mft", "delete-char"),
+        (Kind::Rsync, "rsync://example.net/repo/x.mft", "rsync://example.net./repo/x.mft", "host-trailing-dot"),
+        (Kind::Rsync, "rsync://example.net/repo/x.mft", "rsync://example.net:873/repo/x.mft", "host-port"),
+        (Kind::Https, "https://example.net/notify.xml", "https://EXAMPLE.net/notify.xml", "host-case"),
+        (Kind::Https, "https://example.net/notify.xml", "https://example.net/Notify.xml", "path-case"),
+        (Kind::Https, "https://../notify.xml", "https://./notify.xml", "replace-char"),
+        (Kind::Https, "https://../notify.xml", "https:///notify.xml", "delete-char"),
+        (Kind::Https, "https://example.net/a/../b", "https://example.net/b", "drop-segment"),
+        (Kind::Https, "https://example.net//b", "https://example.net/b", "delete-char"),
+        (Kind::Https, "https://tmp/notify.xml", "https://rsync/notify.xml", "replace-char"),
+    ]
+    .iter()
+    .map(|(k, a, b, e)| Pair { kind: *k, a: a.to_string(), b: b.to_string(), edit: e.to_string() })
+    .collect();
+    let no_directed = std::env::var_os("RV_NO_DIRECTED").is_some();
+    for p in directed.iter().filter(|_| !no_directed) {
+        run_case(ctx, rep, "paths", p, |p, info| prop_paths(&fx, p, info));
+    }
+    let n = ctx.tier.pick(1500u32, 12_000);
+    let t = std::time::Instant::now();
+    run_prop_par(ctx, rep, "paths", n, 16, || pair(Kind::Rsync), |p, info| prop_paths(&fx, p, info));
+    eprintln!("C30: rsync pairs {:.1}s", t.elapsed().as_secs_f64());
+    run_prop_par(ctx, rep, "paths", ctx.tier.pick(4500u32, 100_000), 8, || pair(Kind::Https), |p, info| prop_paths(&fx, p, info));
+    eprintln!("C30: https pairs {:.1}s", t.elapsed().as_secs_f64());
+    // real operations
+    ctx.shrink_iters.store(60, std::sync::atomic::Ordering::Relaxed);
+    let real_n = ctx.tier.pick(40u32, 1500);
+    let mut seen: BTreeMap<String, u64> = BTreeMap::new();
+    for p in directed.iter().filter(|p| p.kind == Kind::Rsync && !no_directed) {
+        run_case(ctx, rep, "real", p, |p, info| prop_real(ctx, p, info));
+        *seen.entry(p.edit.clone()).or_default() += 1;
+    }
+    run_prop_par(ctx, rep, "real", real_n, 8, || pair(Kind::Rsync), |p, info| prop_real(ctx, p, info));
+    rep.extra.insert("directed_real_pairs_by_edit".into(), serde_json::json!(seen));
+    if !rep.violated() {
+        rep.extra.insert("informational_prefix_conflict_probe".into(), prefix_probe(ctx));
+    }
 }
